@@ -183,6 +183,9 @@ func execConcCase(c *runCtx, cc *concCase, cases lineW) error {
 		manual = make(chan interface{})
 		p = mpb.New(mpb.WithOutput(io.Discard), mpb.WithManualRefresh(manual), mpb.WithWidth(40))
 	}
+	if f, ok := cases.(interface{ Flush() error }); ok {
+		_ = f.Flush()
+	}
 	b := p.AddBar(cc.total)
 
 	var seq int64
